@@ -47,6 +47,10 @@ def do(op):
             res["after_mutation_equal"] = protos() == first
         return res
     model = onnx.load_from_string(base64.b64decode(op["model"]))
+    if op.get("reopset"):  # history only: the same graph declared under another opset
+        for imp in model.opset_import:
+            if imp.domain in ("", "ai.onnx"):
+                imp.version = int(op["reopset"])
     if kind == "optimize":
         import onnxscript.optimizer as opt
 
